@@ -119,6 +119,7 @@ impl Gen {
                 "reload" => (35, 8, 5, 5, 10, 18, 3, 1, 12, 3, 0),
                 "mixed" => (30, 8, 6, 6, 10, 20, 6, 1, 5, 6, 3),
                 "unusual" => (30, 8, 6, 6, 10, 22, 5, 1, 3, 6, 8),
+                "wide" => (40, 8, 6, 6, 12, 20, 0, 1, 3, 4, 3),
                 "malformed" | "edge" => (40, 5, 10, 5, 8, 25, 2, 1, 2, 4, 0),
                 "ties" => (42, 8, 5, 5, 10, 22, 2, 1, 2, 3, 0),
                 "py" => (45, 10, 0, 0, 12, 24, 4, 0, 4, 0, 3),
